@@ -22,6 +22,12 @@ What is extracted (every piece is small decision / integer / table logic of the 
     (options before NLProblemBuilder::OnHeader), StdBackend::RunFromNLFile, and the order of the four
     count lines in WriteSolFile.
 
+  * fmt::BufferedFile::close() and ~BufferedFile() (src/posix.cc): statement-by-statement state transformers over
+    (file_ set?, stream live?, number of fclose calls, fclose on a dead stream?, threw?, reported?) with fclose's return
+    value as a parameter
+  * skeletons: every call / construction / branch condition / throw / return of the functions between main and the
+    solver's answer, unfiltered (change detector)
+
 Anything not understood raises TranslateError (prints TRANSLATE-ERROR, exit status 3).
 usage: gen_c09.py <repo> <out.lean> <workdir>        Writes the file only when its content changes.
 """
@@ -56,10 +62,11 @@ def prefetch(repo, work):
             ('c09_rd.cc', '#include "mp/nl-reader.h"\n' + PROBES_RD, 'mp::ReadError'), ('c09_rd.cc', '#include "mp/nl-reader.h"\n' + PROBES_RD, 'mp::BinaryReadError'),
             ('c09_rd.cc', '#include "mp/nl-reader.h"\n' + PROBES_RD, 'c09probe_'),
             ('c09_app.cc', '#include "mp/backend-app.h"\n', 'mp::BackendApp::Run'), ('c09_app.cc', '#include "mp/backend-app.h"\n', 'mp::RunBackendApp'),
-            ('c09_app.cc', '#include "mp/backend-app.h"\n', 'mp::BackendApp::Init'), ('c09_mm.cc', mm, 'mp::StdBackend::ReadNL'), ('c09_mm.cc', mm, 'ReadNLFile'),
+            ('c09_app.cc', '#include "mp/backend-app.h"\n', 'mp::BackendApp::Init'), ('c09_mm.cc', mm, 'mp::StdBackend::ReadNL'), ('c09_mm.cc', mm, 'ReadNLFile'), ('c09_mm.cc', mm, 'ReportSuffixes'),
             ('c09_hs.cc', hs, 'mp::internal::AppSolutionHandlerImpl'),
             ('c09_mm.cc', mm, 'ReadNLModel'), ('c09_mm.cc', mm, 'mp::internal::SolverNLHandlerImpl'), ('c09_mm.cc', mm, 'RunFromNLFile'),
-            ('c09_sol.cc', '#include "mp/sol.h"\n', 'mp::WriteSolFile')]
+            ('c09_sol.cc', '#include "mp/sol.h"\n', 'mp::WriteSolFile'),
+            ('c09_posix.cc', '#include "posix.cc"\n', 'fmt::BufferedFile::close'), ('c09_posix.cc', '#include "posix.cc"\n', 'fmt::BufferedFile::~BufferedFile')]
     for n, t, _ in jobs:                      # write the TUs once, before the threads start
         tu = os.path.join(work, n)
         if not os.path.exists(tu) or open(tu).read() != t:
@@ -393,6 +400,151 @@ def writer_closes_file(repo, work):
     nm, obj = member_call_name(last)
     return bool(nm == 'close' and obj is not None and obj.get('kind') == 'DeclRefExpr'
                 and (obj.get('referencedDecl') or {}).get('name') == files[0].get('name'))
+
+
+# ------------------------------------------------------------------------------------------ fmt::BufferedFile (posix.cc)
+BF_PRELUDE = '''/-- What `fmt::BufferedFile::close()` / `~BufferedFile()` can observe and change: is `file_` set, is the `FILE*` it
+points to still a live stream, how often `fclose` was called, was it called on a dead stream, did the function throw,
+did it only report (`report_system_error`). -/
+structure FileState where
+  fileSet : Bool
+  live : Bool
+  fcloses : Nat
+  doubleClose : Bool
+  threw : Bool
+  reported : Bool
+deriving DecidableEq, Repr
+
+/-- `fclose(file_)` returning `res` (0 = everything buffered reached the file) -/
+def fcloseCall (s : FileState) (res : Int) : Int × FileState :=
+  (res, { s with fcloses := s.fcloses + 1, doubleClose := s.doubleClose || !s.live, live := false })
+'''
+
+
+class BF:
+    def __init__(self):
+        self.n = 0
+
+    def fresh(self, p):
+        self.n += 1
+        return '%s%d' % (p, self.n)
+
+    def is_file(self, n):
+        n = strip(n)
+        return n.get('kind') == 'MemberExpr' and n.get('name') == 'file_'
+
+    def ex(self, n, s, want):
+        """-> (lean term of type (T × FileState)) evaluated in state variable s; T = Bool | Int"""
+        n = strip(n)
+        k = n.get('kind')
+        if self.is_file(n):
+            if want != 'bool':
+                raise TranslateError('BufferedFile: file_ used as a value')
+            return '(%s.fileSet, %s)' % (s, s)
+        if k == 'IntegerLiteral':
+            return '((%s : Int), %s)' % (n['value'], s)
+        if k == 'DeclRefExpr' and n.get('referencedDecl', {}).get('kind') == 'VarDecl':
+            v = n['referencedDecl']['name']
+            return ('(%s != 0, %s)' if want == 'bool' else '(%s, %s)') % (v, s)
+        if k == 'CallExpr':
+            nm = call_names(n)[:1]
+            if nm == ['fclose'] and len(n['inner']) == 2 and self.is_file(n['inner'][1]):
+                if want == 'bool':
+                    a, t = self.fresh('v'), self.fresh('t')
+                    return '(let (%s, %s) := fcloseCall %s res; (%s != 0, %s))' % (a, t, s, a, t)
+                return '(fcloseCall %s res)' % s
+            raise TranslateError('BufferedFile: call of %s not supported' % nm)
+        if k == 'UnaryOperator' and n.get('opcode') == '!':
+            a, t = self.fresh('v'), self.fresh('t')
+            return '(let (%s, %s) := %s; (!%s, %s))' % (a, t, self.ex(n['inner'][0], s, 'bool'), a, t)
+        if k == 'BinaryOperator' and n.get('opcode') in ('&&', '||'):
+            a, t = self.fresh('v'), self.fresh('t')
+            rhs = self.ex(n['inner'][1], t, 'bool')
+            if n['opcode'] == '&&':
+                return '(let (%s, %s) := %s; if %s then %s else (false, %s))' % (a, t, self.ex(n['inner'][0], s, 'bool'), a, rhs, t)
+            return '(let (%s, %s) := %s; if %s then (true, %s) else %s)' % (a, t, self.ex(n['inner'][0], s, 'bool'), a, t, rhs)
+        if k == 'BinaryOperator' and n.get('opcode') in ('!=', '=='):
+            a, t, b, u = self.fresh('v'), self.fresh('t'), self.fresh('v'), self.fresh('t')
+            op = '!=' if n['opcode'] == '!=' else '=='
+            return '(let (%s, %s) := %s; let (%s, %s) := %s; (%s %s %s, %s))' % (
+                a, t, self.ex(n['inner'][0], s, 'int'), b, u, self.ex(n['inner'][1], t, 'int'), a, op, b, u)
+        raise TranslateError('BufferedFile: expression %s not supported' % k)
+
+    def stmts(self, L, s):
+        """-> lean term of type FileState: the state when the function is left"""
+        if not L:
+            return s
+        st, rest = L[0], L[1:]
+        k = st.get('kind')
+        if k == 'ExprWithCleanups' and len(st.get('inner', [])) == 1:
+            return self.stmts([st['inner'][0]] + rest, s)
+        if k == 'CompoundStmt':
+            return self.stmts(st.get('inner', []) + rest, s)      # (no early exit from inner blocks other than return / throw)
+        if k == 'ReturnStmt' and not st.get('inner'):
+            return s
+        if k == 'CXXThrowExpr':
+            return '{ %s with threw := true }' % s
+        if k == 'CallExpr' and call_names(st)[:1] == ['report_system_error']:
+            return self.stmts(rest, '{ %s with reported := true }' % s)
+        if k == 'IfStmt':
+            inner = st['inner']
+            if len(inner) != 2:
+                raise TranslateError('BufferedFile: if/else not supported')
+            c, t = self.fresh('c'), self.fresh('s')
+            body = inner[1]
+            then = self.stmts([body], t)
+            leaves = find_all(body, lambda m: m.get('kind') in ('ReturnStmt', 'CXXThrowExpr'))
+            if leaves:       # the branch leaves the function
+                return '(let (%s, %s) := %s; if %s then %s else %s)' % (c, t, self.ex(inner[0], s, 'bool'), c, then, self.stmts(rest, t))
+            u = self.fresh('s')
+            return '(let (%s, %s) := %s; let %s := (if %s then %s else %s); %s)' % (c, t, self.ex(inner[0], s, 'bool'), u, c, then, t, self.stmts(rest, u))
+        if k == 'DeclStmt':
+            vs = [v for v in st['inner'] if v.get('kind') == 'VarDecl']
+            if len(vs) != 1 or qt(vs[0]) != 'int' or not vs[0].get('inner'):
+                raise TranslateError('BufferedFile: declaration not supported')
+            t = self.fresh('s')
+            return '(let (%s, %s) := %s; %s)' % (vs[0]['name'], t, self.ex(vs[0]['inner'][0], s, 'int'), self.stmts(rest, t))
+        if k == 'BinaryOperator' and st.get('opcode') == '=' and self.is_file(st['inner'][0]):
+            r = strip(st['inner'][1])
+            if r.get('kind') == 'IntegerLiteral' and r.get('value') == '0' or r.get('kind') in ('CXXNullPtrLiteralExpr', 'GNUNullExpr'):
+                return self.stmts(rest, '{ %s with fileSet := false }' % s)
+        raise TranslateError('BufferedFile: statement %s not supported' % k)
+
+
+def buffered_file(repo, work):
+    out = [BF_PRELUDE]
+    for lean_name, filt, kind, cname in (('bufferedFileClose', 'fmt::BufferedFile::close', 'CXXMethodDecl', 'close'),
+                                         ('bufferedFileDtor', 'fmt::BufferedFile::~BufferedFile', 'CXXDestructorDecl', '~BufferedFile')):
+        docs = clang(repo, work, 'c09_posix.cc', '#include "posix.cc"\n', filt)
+        d = [x for x in docs if x.get('kind') == kind and x.get('name') == cname and body_of(x) is not None]
+        if len(d) != 1:
+            raise TranslateError('%s: expected one definition, found %d' % (filt, len(d)))
+        out.append('/-- %s (src/posix.cc), statement by statement; `res` = what `fclose` returns -/' % filt)
+        out.append('def %s (s : FileState) (res : Int) : FileState :=\n  %s' % (lean_name, BF().stmts(body_of(d[0])['inner'], 's')))
+        out.append('')
+    return '\n'.join(out)
+
+
+def suffix_ladder(repo, work):
+    """StdBackend::ReportSuffixes: `try { calls } catch (T) { no throw / return }` -> (calls, [handler types])"""
+    mm = '#include "mp/model-mgr-with-pb.h"\n#include "mp/backend-std.h"\n'
+    docs = clang(repo, work, 'c09_mm.cc', mm, 'ReportSuffixes')
+    d = [x for x in docs if x.get('kind') == 'CXXMethodDecl' and x.get('name') == 'ReportSuffixes' and body_of(x) is not None]
+    if len(d) != 1:
+        raise TranslateError('StdBackend::ReportSuffixes: expected one definition, found %d' % len(d))
+    st = body_of(d[0]).get('inner', [])
+    if len(st) != 1 or st[0].get('kind') != 'CXXTryStmt':
+        raise TranslateError('ReportSuffixes: expected the body to be one try statement')
+    tr = st[0]['inner']
+    calls = sk_tokens(tr[0], Src(d[0]), [], [])
+    hs = []
+    for c in tr[1:]:
+        if c.get('kind') != 'CXXCatchStmt':
+            raise TranslateError('ReportSuffixes: unexpected %s in try statement' % c.get('kind'))
+        if find_all(c, lambda n: n.get('kind') in ('CXXThrowExpr', 'ReturnStmt')):
+            raise TranslateError('ReportSuffixes: a handler rethrows / returns: not modelled')
+        hs.append(handler_type(c)[0])
+    return calls, hs
 
 
 # ------------------------------------------------------------------------------------------ pieces
@@ -925,6 +1077,13 @@ def generate(repo, work):
     L.append('/-- the last statement of WriteSolFile is `file.close()` (which throws if a write failed) -/')
     L.append('def solWriterClosesFile : Bool := %s' % ('true' if writer_closes_file(repo, work) else 'false'))
     L.append('')
+    sc_, sh_ = suffix_ladder(repo, work)
+    L.append('/-! ## StdBackend::ReportSuffixes: everything in its try block, and its handlers (none rethrows) -/')
+    L.append('def suffixesTryCalls : List String := %s' % lean_list(sc_))
+    L.append('def suffixesHandlers : List String := %s' % lean_list(sh_))
+    L.append('')
+    L.append('/-! ## fmt::BufferedFile::close and the destructor (src/posix.cc), as state transformers -/')
+    L.append(buffered_file(repo, work))
     L.append('/-! ## skeletons: every call / construction / branch / throw / return of the functions between `main`')
     L.append('and the solver\'s answer, unfiltered, in evaluation order (arguments before the call; `lambda#i` = the')
     L.append('i-th lambda expression of the function, its body is `<function>_lambda<i>`) -/')
